@@ -56,3 +56,172 @@ Proof.
   destruct (wf_get_in _ _ _ _ _ F G) as (ep' & W & _). simpl in W.
   apply wf_node_unfold in W. tauto.
 Qed.
+
+(* --- structural well-formedness of every slot (the "one parent, true path" half of WF) ----------------------- *)
+Definition wfs (st : state) : Prop := Forall wf_slot (roots st).
+
+Lemma wf_node_leaf_inv : forall ep epth n, is_node n = false -> wf_node ep epth n.
+Proof. destruct n; simpl; intros; auto; discriminate. Qed.
+
+(* set_path: a node that is well-formed at some path becomes well-formed at the new one (same parent) *)
+Lemma set_path_wf : forall n pa pt p, wf_node pa pt n -> wf_node pa p (set_path p n).
+Proof.
+  induction n using node_ind'; intros; simpl; auto.
+  apply wf_node_unfold in H0. destruct H0 as (E1 & E2 & K & F). subst.
+  destruct (path_eqb pt0 p) eqn:E.
+  - apply path_eqb_eq in E; subst. apply wf_node_unfold; auto.
+  - apply wf_node_unfold. repeat split; auto.
+    + rewrite map_map; simpl. auto.
+    + apply Forall_map. simpl. rewrite Forall_forall in *. intros kv I.
+      eapply H; eauto.
+Qed.
+Lemma set_par_wf : forall n pa pt pa', wf_node pa pt n -> wf_node pa' pt (set_par pa' n).
+Proof.
+  destruct n; simpl; intros; auto.
+  apply wf_node_unfold in H. apply wf_node_unfold. tauto.
+Qed.
+Lemma detach_wf : forall n pa pt, wf_node pa pt n -> wf_node None [] (detach n).
+Proof. intros. unfold detach. eapply set_path_wf. eapply set_par_wf; eauto. Qed.
+Lemma relocate_wf : forall n pa pt pa' p, wf_node pa pt n -> wf_node pa' p (set_par pa' (set_path p n)).
+Proof. intros. eapply set_par_wf. eapply set_path_wf; eauto. Qed.
+Lemma is_node_set_path : forall p n, is_node (set_path p n) = is_node n.
+Proof. destruct n; simpl; auto. destruct (path_eqb pth p); auto. Qed.
+Lemma is_node_set_par : forall p n, is_node (set_par p n) = is_node n.
+Proof. destruct n; auto. Qed.
+Lemma is_node_detach : forall n, is_node (detach n) = is_node n.
+Proof. intros; unfold detach. rewrite is_node_set_path, is_node_set_par; auto. Qed.
+
+Lemma seal_rec_wf : forall b n pa pt, wf_node pa pt n -> wf_node pa pt (seal_rec b n).
+Proof.
+  induction n using node_ind'; intros; simpl; auto.
+  apply wf_node_unfold in H0. destruct H0 as (E1 & E2 & K & F). subst.
+  apply wf_node_unfold. repeat split; auto.
+  - rewrite map_map; simpl; auto.
+  - apply Forall_map; simpl. rewrite Forall_forall in *. intros kv I. eapply H; eauto.
+Qed.
+Lemma set_flags_wf : forall f n pa pt, wf_node pa pt n -> wf_node pa pt (set_flags f n).
+Proof.
+  destruct n as [l|i k pa0 pt0 fl its]; simpl; intros; auto.
+Qed.
+
+(* --- list positions ---------------------------------------------------------------------------------------------- *)
+Lemma positions_app : forall l i, positions i l -> positions i (l ++ [KI (i + Z.of_nat (length l))]).
+Proof.
+  induction l; intros.
+  - simpl. rewrite Z.add_0_r; auto.
+  - destruct H. change (length (a :: l)) with (S (length l)). rewrite Nat2Z.inj_succ. simpl. split; auto.
+    replace (i + Z.succ (Z.of_nat (length l))) with ((i + 1) + Z.of_nat (length l)) by lia.
+    apply IHl; auto.
+Qed.
+Lemma renum_from_keys : forall cp l i, positions i (map fst (renum_from cp i l)).
+Proof. induction l as [|[k c] r]; simpl; intros; auto. Qed.
+Lemma rekey_from_keys : forall l i, positions i (map fst (rekey_from i l)).
+Proof. induction l as [|[k c] r]; simpl; intros; auto. Qed.
+Lemma positions_nth : forall l i n k, positions i l -> nth_error l n = Some k -> k = KI (i + Z.of_nat n).
+Proof.
+  induction l; intros; destruct n; simpl in H0; try discriminate; destruct H.
+  - inv H0. simpl. rewrite Z.add_0_r; auto.
+  - rewrite (IHl _ _ _ H1 H0). f_equal. rewrite Nat2Z.inj_succ. lia.
+Qed.
+Lemma positions_set_nth : forall l i n, positions i l -> (n < length l)%nat ->
+  positions i (set_nth n (KI (i + Z.of_nat n)) l).
+Proof.
+  induction l as [|a l IH]; intros i n H L; [simpl in L; lia|].
+  destruct H as [Ha Hl]. destruct n as [|n].
+  - simpl. rewrite Z.add_0_r. split; [reflexivity | exact Hl].
+  - replace (i + Z.of_nat (S n)) with ((i + 1) + Z.of_nat n) by (rewrite Nat2Z.inj_succ; lia).
+    change (a = KI i /\ positions (i + 1) (set_nth n (KI (i + 1 + Z.of_nat n)) l)).
+    split; [exact Ha|]. apply IH; [exact Hl | simpl in L; lia].
+Qed.
+Lemma map_fst_set_nth : forall A B (l : list (A * B)) n k v, map fst (set_nth n (k, v) l) = set_nth n k (map fst l).
+Proof. induction l as [|a l IH]; intros [|n] k v; simpl; auto. f_equal. apply IH. Qed.
+
+(* re-indexing the children of a list whose own path is right makes every child well-formed at its position *)
+Lemma reindex_child_wf : forall cid cp i c k0,
+  wf_node (Some cid) (cp ++ [k0]) c -> wf_node (Some cid) (cp ++ [KI i]) (reindex_child cp i c).
+Proof.
+  intros. destruct c as [l|j k pa pt fl its]; [simpl; auto|].
+  pose proof H as H'. apply wf_node_unfold in H'. destruct H' as (_ & E & _). subst pt.
+  Opaque set_path.
+  unfold reindex_child, last_key. rewrite rev_app_distr. simpl.
+  destruct (key_eqb k0 (KI i)) eqn:E.
+  - apply key_eqb_eq in E; subst; auto.
+  - eapply set_path_wf; eauto.
+  Transparent set_path.
+Qed.
+Definition child_wf (cid : N) (cp : list key) (kv : key * node) : Prop := wf_node (Some cid) (cp ++ [fst kv]) (snd kv).
+Definition child_wf_any (cid : N) (cp : list key) (kv : key * node) : Prop := exists k0, wf_node (Some cid) (cp ++ [k0]) (snd kv).
+Lemma child_wf_any_of : forall cid cp l, Forall (child_wf cid cp) l -> Forall (child_wf_any cid cp) l.
+Proof. intros. eapply Forall_impl; [|exact H]. intros kv W; exists (fst kv); auto. Qed.
+Lemma renum_from_wf : forall cid cp l i,
+  Forall (child_wf_any cid cp) l -> Forall (child_wf cid cp) (renum_from cp i l).
+Proof.
+  induction l as [|[k c] r]; simpl; intros; auto.
+  inv H. constructor; auto. destruct H2 as [k0 W]. unfold child_wf; simpl. eapply reindex_child_wf; eauto.
+Qed.
+Lemma renum_wf : forall cid cp l, Forall (child_wf_any cid cp) l -> Forall (child_wf cid cp) (renum cp l).
+Proof. intros; apply renum_from_wf; auto. Qed.
+Lemma renum_keys : forall cp l, positions 0 (map fst (renum cp l)).
+Proof. intros; apply renum_from_keys. Qed.
+
+Lemma Forall_insert_at : forall A (P : A -> Prop) n x l, P x -> Forall P l -> Forall P (insert_at n x l).
+Proof. induction n; destruct l; simpl; intros; auto. inv H0. constructor; auto. Qed.
+Lemma Forall_remove_nth : forall A (P : A -> Prop) n l, Forall P l -> Forall P (remove_nth n l).
+Proof. induction n; destruct l; simpl; intros; auto; inv H; auto. Qed.
+Lemma Forall_set_nth : forall A (P : A -> Prop) n x l, P x -> Forall P l -> Forall P (set_nth n x l).
+Proof. induction n; destruct l; simpl; intros; auto; inv H0; constructor; auto. Qed.
+Lemma Forall_nth_error : forall A (P : A -> Prop) l n x, Forall P l -> nth_error l n = Some x -> P x.
+Proof. intros. rewrite Forall_forall in H. eapply H, nth_error_In; eauto. Qed.
+
+(* --- dict keys --------------------------------------------------------------------------------------------------------- *)
+Lemma assoc_none_notin : forall A k (l : list (key * A)), assoc k l = None -> ~ In k (map fst l).
+Proof.
+  induction l as [|[k' v] r]; simpl; intros; auto.
+  destruct (key_eqb k k') eqn:E; [discriminate|].
+  intros [X|X]; [subst; rewrite key_eqb_refl in E; discriminate | eapply IHr; eauto].
+Qed.
+Lemma set_assoc_keys : forall A k (v : A) l,
+  map fst (set_assoc k v l) = if has_key k l then map fst l else map fst l ++ [k].
+Proof.
+  unfold has_key. induction l as [|[k' v'] r]; simpl; auto.
+  destruct (key_eqb k k') eqn:E; simpl; auto.
+  rewrite IHr. destruct (assoc k r); simpl; auto.
+Qed.
+Lemma set_assoc_nodup : forall A k (v : A) l, NoDup (map fst l) -> NoDup (map fst (set_assoc k v l)).
+Proof.
+  intros. rewrite set_assoc_keys. unfold has_key. destruct (assoc k l) eqn:E; auto.
+  apply nodup_app; auto. constructor; auto. constructor.
+  intros x I [J|[]]; subst. eapply assoc_none_notin; eauto.
+Qed.
+Lemma remove_assoc_keys_incl : forall A k (l : list (key * A)) x, In x (map fst (remove_assoc k l)) -> In x (map fst l).
+Proof.
+  induction l as [|[k' v'] r]; simpl; intros; auto.
+  destruct (key_eqb k k'); simpl in *; auto. destruct H; auto.
+Qed.
+Lemma remove_assoc_nodup : forall A k (l : list (key * A)), NoDup (map fst l) -> NoDup (map fst (remove_assoc k l)).
+Proof.
+  induction l as [|[k' v'] r]; simpl; intros; auto. inv H.
+  destruct (key_eqb k k'); simpl; auto. constructor; auto.
+  intro I; apply H2. eapply remove_assoc_keys_incl; eauto.
+Qed.
+Lemma Forall_set_assoc : forall A (P : key * A -> Prop) k v l,
+  (forall k', key_eqb k k' = true -> P (k', v)) -> Forall P l -> Forall P (set_assoc k v l).
+Proof.
+  induction l as [|[k' v'] r]; simpl; intros.
+  - constructor; auto. apply H, key_eqb_refl.
+  - inv H0. destruct (key_eqb k k') eqn:E; constructor; auto.
+Qed.
+Lemma Forall_remove_assoc : forall A (P : key * A -> Prop) k l, Forall P l -> Forall P (remove_assoc k l).
+Proof.
+  induction l as [|[k' v'] r]; simpl; intros; auto. inv H. destruct (key_eqb k k'); auto.
+Qed.
+Lemma Forall_map_assoc : forall A (P : key * A -> Prop) k f l,
+  (forall k' v, In (k', v) l -> P (k', v) -> P (k', f v)) -> Forall P l -> Forall P (map_assoc k f l).
+Proof.
+  induction l as [|[k' v'] r]; simpl; intros; auto. inv H0.
+  destruct (key_eqb k k'); constructor; auto.
+Qed.
+Lemma map_assoc_keys : forall A k f (l : list (key * A)), map fst (map_assoc k f l) = map fst l.
+Proof. induction l as [|[k' v'] r]; simpl; auto. destruct (key_eqb k k'); simpl; congruence. Qed.
+Lemma set_assoc_same_keys : forall A k (v old : A) l, assoc k l = Some old -> map fst (set_assoc k v l) = map fst l.
+Proof. intros. rewrite set_assoc_keys. unfold has_key. rewrite H. auto. Qed.
